@@ -50,7 +50,7 @@ def main(tier, only=None):
             if not want(kind):
                 continue
             hs.append(e1.H(fn, "%s/%s" % (kind, name), unwind=200, defines=("SHAPE=%d" % sh, "PATSET=%d" % pat),
-                           replace_calls=RC, object_bits=12, timeout=2400 if thorough else 600, family=kind,
+                           replace_calls=RC, object_bits=12, timeout=4800 if thorough else 600, family=kind,
                            desc="PATSET=%d" % pat))
     if hs:
         e1.run_set(chk, "c05/init.c", hs, workers=8, extra_src=extra)
